@@ -384,6 +384,8 @@ class Exec:
         self.threads = None        # multi-thread scheduler state (set by run_threads)
         self.syms = {}
         self.boxes = []
+        self.path_facts = {}       # per-path choices of the environment that must stay the same within one run
+        self.raw_ptrs = {}
 
     CROSS_EVERY = int(os.environ.get('VERIF_CVC5_EVERY', '20000'))
 
